@@ -465,6 +465,29 @@ pub fn run(run: &mut Run) {
     run.par(shards, |shard, obs| {
         crate::engine::prop_on(obs, "random", cases / shards as u32, crate::engine::mix(seed, "shard", shard as u64), strategy(max_n), case);
     });
+    // a few inputs with more than 100 000 observations per sample (the normal-quantile branch of every mean producer)
+    {
+        let jobs = run.tier.pick(6usize, 48);
+        let seed = run.seed_for("large", 0);
+        run.par(jobs, |j, obs| {
+            let s = strategy(100_001).prop_map(|mut c| {
+                // stretch both samples (and the positive one) to 100 001 … 100 400 observations by cycling
+                for smp in [&mut c.a, &mut c.b, &mut c.p] {
+                    let base = smp.data.clone();
+                    let want = 100_001 + (base.len() % 400);
+                    smp.data = (0..want).map(|i| base[i % base.len()]).collect();
+                }
+                c
+            });
+            for c in crate::engine::draw(&s, crate::engine::mix(seed, "large", j as u64), 1) {
+                crate::engine::case_on(obs, "large", &c, |c, obs| {
+                    obs.class("large-samples");
+                    case(c, obs)
+                });
+            }
+        });
+        run.require_class("large-samples");
+    }
     for p in ["unpaired/f64", "unpaired/f32", "arithmetic/f64"] {
         run.require_class(&format!("kind-only/{p}"));
     }
@@ -479,7 +502,7 @@ pub fn run(run: &mut Run) {
 pub fn replay(sub: &str, v: &Value, obs: &mut Obs) -> Option<PResult> {
     Some(match sub {
         "history" => crate::props::history::case(&de(v), obs),
-        "random" => case(&de(v), obs),
+        "random" | "large" => case(&de(v), obs),
         _ => return None,
     })
 }
